@@ -33,6 +33,7 @@ pub enum Src {
   Interval { p: u32, take: usize },
   /// instant = construction time + off_ms (negative = in the past)
   IntervalAt { off: i32, p: u32, take: usize },
+  /// d in units of 100 microseconds
   Timer { d: u32 },
   TimerAt { off: i32 },
   Future { gate: Gate },
@@ -186,7 +187,7 @@ impl Scenario for C08 {
     let src = match rng.below(10) {
       0 | 1 => Src::Interval { p, take: rng.range(1, 6) },
       2 | 3 => Src::IntervalAt { off: *rng.pick(&[-5, 0, 1, 2, 5, 12, 30]), p, take: rng.range(1, 5) },
-      4 => Src::Timer { d: *rng.pick(&[0, 1, 3, 10]) },
+      4 => Src::Timer { d: *rng.pick(&[0, 3, 10, 30, 100]) },
       5 => Src::TimerAt { off: *rng.pick(&[-5, 0, 1, 3, 10]) },
       6 => Src::Future { gate: gate(rng) },
       7 => Src::FutureResult { gate: gate(rng), err: rng.chance(1, 2) },
@@ -242,7 +243,7 @@ impl Scenario for C08 {
             Box::new(move || Box::new(o.actual_subscribe(p)))
           }
           Src::Timer { d } => {
-            let o = observable::timer(Val::I(7), Duration::from_millis(d as u64), sched);
+            let o = observable::timer(Val::I(7), Duration::from_micros(d as u64 * 100), sched);
             Box::new(move || Box::new(o.actual_subscribe(p)))
           }
           Src::TimerAt { off } => {
@@ -402,7 +403,7 @@ impl Scenario for C08 {
         // only a lower bound is promised for timers: never before the due time
         // (timer: subscription + d; timer_at: the instant)
         let due_min = match &case.src {
-          Src::Timer { d } => t_sub + *d as u64 * MS,
+          Src::Timer { d } => t_sub + *d as u64 * MS / 10,
           Src::TimerAt { off } => at_of(*off).1.max(t_sub as i64) as u64,
           _ => unreachable!(),
         };
